@@ -478,6 +478,11 @@ def duplicateRock (w : World) (nm : Name) (r : Nat) : R :=
     let (id, w1) := w.newRock { name := nm, tag := (w.rk r).tag }
     addRocktype w1 id
 
+/-- `t2connection([lastblk, mincblk], 1, [d[m - 1], d[m]], original_vol * a[m - 1], None)` -/
+def mincCon (args : MincArgs) (origVol : Rat) (m lastblk mb : Nat) : Con :=
+  { b0 := lastblk, b1 := mb, direction := 1, d0 := args.d.getD (m - 1) 0, d1 := args.d.getD m 0,
+    area := origVol * args.a.getD (m - 1) 0, dircos := none, nad1 := none, nad2 := none }
+
 /-- the loop `for vf in volume_fractions[1:]` for one block; `m` is the level just done,
     returns the world, the last block and the block-list indices of the new blocks -/
 def mincLevels (args : MincArgs) (blkname : Name) (origVol : Rat) (origRock : Nat) (centre : Option (List Rat)) :
@@ -499,8 +504,7 @@ def mincLevels (args : MincArgs) (blkname : Name) (origVol : Rat) (origRock : Na
           match addBlock w2 mb with
           | .error e => .error e
           | .ok w3 =>
-            let (c, w4) := w3.newCon { b0 := lastblk, b1 := mb, direction := 1, d0 := args.d.getD (m - 1) 0, d1 := args.d.getD m 0,
-                                       area := origVol * args.a.getD (m - 1) 0, dircos := none, nad1 := none, nad2 := none }
+            let (c, w4) := w3.newCon (mincCon args origVol m lastblk mb)
             match addConnection w4 c with
             | .error e => .error e
             | .ok w5 => mincLevels args blkname origVol origRock centre w5 r m mb (iblk + 1) (idx ++ [iblk + 1])
